@@ -21,7 +21,7 @@ func C03(tier string) {
 	var chains []gen.Chain
 	switch tier {
 	case "thorough":
-		chains = chainWorkload(run.SeedV, tier, links, 2000, 300, 7)
+		chains = chainWorkload(run.SeedV, tier, links, 800, 150, 7)
 	case "triage":
 		chains = chainWorkload(run.SeedV, tier, links, 0, 0, 3)
 	case "smoke":
